@@ -138,6 +138,9 @@ class Index(object):
     def scope_chain(self, node):
         chain = []
         p = self.parent.get(node.get('id'))
+        if node.get('parentDeclContextId') and node['parentDeclContextId'] in self.by_id:
+            # out-of-line definition (template <> void message_impl<T>::print(...) { ... }): semantic parent
+            p = self.by_id[node['parentDeclContextId']]
         while p is not None:
             if p.get('kind') in SCOPE_KINDS:
                 name = p.get('name', '')
@@ -149,6 +152,8 @@ class Index(object):
 
     def owner_record(self, fn):
         p = self.parent.get(fn.get('id'))
+        if fn.get('parentDeclContextId') and fn['parentDeclContextId'] in self.by_id:
+            p = self.by_id[fn['parentDeclContextId']]
         while p is not None:
             if p.get('kind') in ('CXXRecordDecl', 'ClassTemplateSpecializationDecl'):
                 return p
